@@ -1,98 +1,17 @@
 package extract
 
-// Helpers of the C04 (join) extractors: a package-level j_scope built from the
-// non-test files of one Go package directory, evaluation of constant string
-// expressions, translation of string-building expressions (SExpr), of Filter
-// bodies (FExpr) and of regular expressions (Re) to the Lean types of
-// lean/ClairModel/Model/JoinTypes.lean.
+// Helpers of the C04 (join) extractors: rendering of byte strings and of
+// regular expressions (Re) as the Lean types of lean/ClairModel/Model/JoinTypes.lean.
+// (Reading of the sources goes through rxPkg: rxpkg.go, rxjoin*.go.)
 
 import (
 	"fmt"
 	"go/ast"
-	"go/parser"
-	"go/token"
-	"os"
-	"path/filepath"
 	"regexp/syntax"
-	"sort"
 	"strconv"
 	"strings"
 	"unicode"
 )
-
-// j_scope is the set of package-level const/var initialisers and functions of
-// one package directory (non-test files, or test files only).
-type j_scope struct {
-	dir   string
-	fset  *token.FileSet
-	files []*ast.File
-	vals  map[string]ast.Expr
-	funcs map[string]*ast.FuncDecl // "Recv.Name" or "Name"
-}
-
-func j_loadScope(repo, rel string, tests bool) (*j_scope, error) {
-	dir := filepath.Join(repo, rel)
-	ents, err := os.ReadDir(dir)
-	if err != nil {
-		return nil, err
-	}
-	sc := &j_scope{dir: rel, fset: token.NewFileSet(), vals: map[string]ast.Expr{}, funcs: map[string]*ast.FuncDecl{}}
-	var names []string
-	for _, e := range ents {
-		n := e.Name()
-		if e.IsDir() || !strings.HasSuffix(n, ".go") || strings.HasSuffix(n, "_verif.go") {
-			continue
-		}
-		if strings.HasSuffix(n, "_test.go") != tests {
-			continue
-		}
-		names = append(names, n)
-	}
-	sort.Strings(names)
-	for _, n := range names {
-		f, err := parser.ParseFile(sc.fset, filepath.Join(dir, n), nil, parser.ParseComments)
-		if err != nil {
-			return nil, err
-		}
-		sc.files = append(sc.files, f)
-		for _, d := range f.Decls {
-			switch d := d.(type) {
-			case *ast.GenDecl:
-				if d.Tok != token.CONST && d.Tok != token.VAR {
-					continue
-				}
-				for _, s := range d.Specs {
-					vs := s.(*ast.ValueSpec)
-					for i, id := range vs.Names {
-						if i < len(vs.Values) {
-							sc.vals[id.Name] = vs.Values[i]
-						}
-					}
-				}
-			case *ast.FuncDecl:
-				key := d.Name.Name
-				if d.Recv != nil && len(d.Recv.List) == 1 {
-					t := d.Recv.List[0].Type
-					if st, ok := t.(*ast.StarExpr); ok {
-						t = st.X
-					}
-					if id, ok := t.(*ast.Ident); ok {
-						key = id.Name + "." + key
-					}
-				}
-				sc.funcs[key] = d
-			}
-		}
-	}
-	return sc, nil
-}
-
-func (sc *j_scope) fn(name string) (*ast.FuncDecl, error) {
-	if f, ok := sc.funcs[name]; ok {
-		return f, nil
-	}
-	return nil, fmt.Errorf("%s: function %s not found", sc.dir, name)
-}
 
 func j_unparen(e ast.Expr) ast.Expr {
 	for {
@@ -102,27 +21,6 @@ func j_unparen(e ast.Expr) ast.Expr {
 		}
 		e = p.X
 	}
-}
-
-// composite returns the composite literal an expression denotes (through & and
-// package-level identifiers).
-func (sc *j_scope) composite(e ast.Expr, depth int) (*ast.CompositeLit, error) {
-	if depth > 8 {
-		return nil, fmt.Errorf("%s: reference chain too deep", sc.dir)
-	}
-	switch x := j_unparen(e).(type) {
-	case *ast.CompositeLit:
-		return x, nil
-	case *ast.UnaryExpr:
-		if x.Op == token.AND {
-			return sc.composite(x.X, depth+1)
-		}
-	case *ast.Ident:
-		if v, ok := sc.vals[x.Name]; ok {
-			return sc.composite(v, depth+1)
-		}
-	}
-	return nil, fmt.Errorf("%s: not a composite literal", sc.dir)
 }
 
 func j_fieldOf(cl *ast.CompositeLit, name string) ast.Expr {
@@ -136,82 +34,6 @@ func j_fieldOf(cl *ast.CompositeLit, name string) ast.Expr {
 		}
 	}
 	return nil
-}
-
-// str evaluates a constant string expression: literals, package-level
-// constants, concatenation, conversions T("…"), fields of package-level
-// composite literals (AL1Dist.Name), and claircore.BINARY/SOURCE.
-func (sc *j_scope) str(e ast.Expr) (string, error) { return sc.strDepth(e, 0) }
-
-func (sc *j_scope) strDepth(e ast.Expr, depth int) (string, error) {
-	if depth > 8 {
-		return "", fmt.Errorf("%s: reference chain too deep", sc.dir)
-	}
-	switch x := j_unparen(e).(type) {
-	case *ast.BasicLit:
-		if x.Kind == token.STRING {
-			return strconv.Unquote(x.Value)
-		}
-	case *ast.Ident:
-		if v, ok := sc.vals[x.Name]; ok {
-			return sc.strDepth(v, depth+1)
-		}
-		return "", fmt.Errorf("%s: identifier %s is not a package-level constant", sc.dir, x.Name)
-	case *ast.BinaryExpr:
-		if x.Op == token.ADD {
-			a, err := sc.strDepth(x.X, depth+1)
-			if err != nil {
-				return "", err
-			}
-			b, err := sc.strDepth(x.Y, depth+1)
-			if err != nil {
-				return "", err
-			}
-			return a + b, nil
-		}
-	case *ast.CallExpr:
-		// conversion T("…") or string(x)
-		if len(x.Args) == 1 {
-			if _, ok := x.Fun.(*ast.Ident); ok {
-				return sc.strDepth(x.Args[0], depth+1)
-			}
-		}
-	case *ast.SelectorExpr:
-		if id, ok := x.X.(*ast.Ident); ok {
-			if id.Name == "claircore" {
-				switch x.Sel.Name {
-				case "BINARY":
-					return "binary", nil
-				case "SOURCE":
-					return "source", nil
-				}
-			}
-			if cl, err := sc.composite(id, 0); err == nil {
-				if fv := j_fieldOf(cl, x.Sel.Name); fv != nil {
-					return sc.strDepth(fv, depth+1)
-				}
-				return "", nil // field absent in the literal: zero value
-			}
-		}
-	}
-	return "", fmt.Errorf("%s: cannot evaluate string expression at %s", sc.dir, sc.fset.Position(e.Pos()))
-}
-
-// strList evaluates a []string{…} literal (through an identifier).
-func (sc *j_scope) strList(e ast.Expr) ([]string, error) {
-	cl, err := sc.composite(e, 0)
-	if err != nil {
-		return nil, err
-	}
-	var out []string
-	for _, el := range cl.Elts {
-		s, err := sc.str(el)
-		if err != nil {
-			return nil, err
-		}
-		out = append(out, s)
-	}
-	return out, nil
 }
 
 // ---- Lean rendering ----
@@ -259,444 +81,9 @@ func j_leanBool(b bool) string {
 	return "false"
 }
 
-// ---- SExpr ----
-
-// j_sexprCtx maps the Go names of a constructor's parameters to their index and
-// says which of them are integers.
-type j_sexprCtx struct {
-	sc     *j_scope
-	params map[string]int // name or "recv[0]" -> index
-	isInt  map[int]bool
-}
-
-func (c *j_sexprCtx) paramIndex(e ast.Expr) (int, bool) {
-	switch x := j_unparen(e).(type) {
-	case *ast.Ident:
-		i, ok := c.params[x.Name]
-		return i, ok
-	case *ast.IndexExpr:
-		if id, ok := x.X.(*ast.Ident); ok {
-			if bl, ok := x.Index.(*ast.BasicLit); ok {
-				i, ok := c.params[id.Name+"["+bl.Value+"]"]
-				return i, ok
-			}
-		}
-	}
-	return 0, false
-}
-
-// sexpr translates a string-valued expression to Lean SExpr syntax.
-func (c *j_sexprCtx) sexpr(e ast.Expr) (string, error) {
-	e = j_unparen(e)
-	if i, ok := c.paramIndex(e); ok {
-		if c.isInt[i] {
-			return "", fmt.Errorf("integer parameter used as a string at %s", c.sc.fset.Position(e.Pos()))
-		}
-		return fmt.Sprintf("(.param %d)", i), nil
-	}
-	switch x := e.(type) {
-	case *ast.BinaryExpr:
-		if x.Op == token.ADD {
-			a, err := c.sexpr(x.X)
-			if err != nil {
-				return "", err
-			}
-			b, err := c.sexpr(x.Y)
-			if err != nil {
-				return "", err
-			}
-			return fmt.Sprintf("(.cat %s %s)", a, b), nil
-		}
-	case *ast.CallExpr:
-		if sel, ok := x.Fun.(*ast.SelectorExpr); ok {
-			pkg, _ := sel.X.(*ast.Ident)
-			if pkg != nil {
-				switch pkg.Name + "." + sel.Sel.Name {
-				case "strconv.Itoa":
-					if i, ok := c.paramIndex(x.Args[0]); ok && c.isInt[i] {
-						return fmt.Sprintf("(.itoa %d)", i), nil
-					}
-				case "strings.Title":
-					a, err := c.sexpr(x.Args[0])
-					if err != nil {
-						return "", err
-					}
-					return fmt.Sprintf("(.title %s)", a), nil
-				case "fmt.Sprintf":
-					return c.sprintf(x)
-				case "cpe.MustUnbind":
-					// the CPE is recorded as the text it is unbound from
-					return c.sexpr(x.Args[0])
-				}
-			}
-		}
-	}
-	s, err := c.sc.str(e)
-	if err != nil {
-		return "", err
-	}
-	return "(.lit " + j_lb(s) + ")", nil
-}
-
-func (c *j_sexprCtx) sprintf(x *ast.CallExpr) (string, error) {
-	format, err := c.sc.str(x.Args[0])
-	if err != nil {
-		return "", err
-	}
-	args := x.Args[1:]
-	var parts []string
-	lit := ""
-	flush := func() {
-		if lit != "" {
-			parts = append(parts, "(.lit "+j_lb(lit)+")")
-			lit = ""
-		}
-	}
-	ai := 0
-	for i := 0; i < len(format); i++ {
-		if format[i] != '%' {
-			lit += string(format[i])
-			continue
-		}
-		i++
-		if i >= len(format) {
-			return "", fmt.Errorf("dangling %% in format %q", format)
-		}
-		switch format[i] {
-		case '%':
-			lit += "%"
-		case 'd', 's', 'v':
-			if ai >= len(args) {
-				return "", fmt.Errorf("too few arguments for %q", format)
-			}
-			idx, ok := c.paramIndex(args[ai])
-			if !ok {
-				// a constant string argument
-				s, err := c.sexpr(args[ai])
-				if err != nil {
-					return "", err
-				}
-				flush()
-				parts = append(parts, s)
-				ai++
-				continue
-			}
-			flush()
-			switch {
-			case format[i] == 'd' && c.isInt[idx], format[i] == 'v' && c.isInt[idx]:
-				parts = append(parts, fmt.Sprintf("(.itoa %d)", idx))
-			case format[i] != 'd' && !c.isInt[idx]:
-				parts = append(parts, fmt.Sprintf("(.param %d)", idx))
-			default:
-				return "", fmt.Errorf("verb %%%c does not fit parameter %d in %q", format[i], idx, format)
-			}
-			ai++
-		default:
-			return "", fmt.Errorf("unsupported verb %%%c in %q", format[i], format)
-		}
-	}
-	flush()
-	if ai != len(args) {
-		return "", fmt.Errorf("unused arguments for %q", format)
-	}
-	if len(parts) == 0 {
-		return "(.lit [])", nil
-	}
-	out := parts[len(parts)-1]
-	for i := len(parts) - 2; i >= 0; i-- {
-		out = fmt.Sprintf("(.cat %s %s)", parts[i], out)
-	}
-	return out, nil
-}
-
 var j_distFields = []struct{ goName, leanName string }{
 	{"DID", "did"}, {"Name", "name"}, {"Version", "version"}, {"VersionCodeName", "versionCodeName"},
 	{"VersionID", "versionID"}, {"Arch", "arch"}, {"CPE", "cpe"}, {"PrettyName", "prettyName"},
-}
-
-// distT renders a claircore.Distribution composite literal as a Lean DistT.
-func (c *j_sexprCtx) distT(cl *ast.CompositeLit) (string, error) {
-	known := map[string]bool{}
-	for _, f := range j_distFields {
-		known[f.goName] = true
-	}
-	for _, el := range cl.Elts {
-		kv, ok := el.(*ast.KeyValueExpr)
-		if !ok {
-			return "", fmt.Errorf("positional Distribution literal")
-		}
-		id, ok := kv.Key.(*ast.Ident)
-		if !ok || !known[id.Name] {
-			return "", fmt.Errorf("unknown Distribution field in literal at %s", c.sc.fset.Position(kv.Pos()))
-		}
-	}
-	var parts []string
-	for _, f := range j_distFields {
-		fv := j_fieldOf(cl, f.goName)
-		if fv == nil {
-			continue
-		}
-		s, err := c.sexpr(fv)
-		if err != nil {
-			return "", fmt.Errorf("field %s: %w", f.goName, err)
-		}
-		parts = append(parts, f.leanName+" := "+s)
-	}
-	return "{ " + strings.Join(parts, ", ") + " }", nil
-}
-
-// j_findDistLiteral finds the (single) &claircore.Distribution{…} literal in a
-// function body.
-func j_findDistLiteral(fd *ast.FuncDecl) (*ast.CompositeLit, error) {
-	var found []*ast.CompositeLit
-	ast.Inspect(fd.Body, func(n ast.Node) bool {
-		cl, ok := n.(*ast.CompositeLit)
-		if !ok {
-			return true
-		}
-		if sel, ok := cl.Type.(*ast.SelectorExpr); ok && sel.Sel.Name == "Distribution" {
-			found = append(found, cl)
-		}
-		return true
-	})
-	if len(found) != 1 {
-		return nil, fmt.Errorf("%s: expected one Distribution literal, found %d", fd.Name.Name, len(found))
-	}
-	return found[0], nil
-}
-
-// ---- FExpr (Filter bodies) ----
-
-type j_fexprCtx struct {
-	sc  *j_scope
-	rec string // name of the record parameter
-}
-
-// path renders record.A.B as "A.B" if e is a selector chain on the record.
-func (c *j_fexprCtx) path(e ast.Expr) (string, bool) {
-	var parts []string
-	if ue, ok := j_unparen(e).(*ast.UnaryExpr); ok && ue.Op == token.AND {
-		e = ue.X // &record.A.B: the same field, passed by pointer
-	}
-	for {
-		switch x := j_unparen(e).(type) {
-		case *ast.SelectorExpr:
-			parts = append([]string{x.Sel.Name}, parts...)
-			e = x.X
-			continue
-		case *ast.Ident:
-			if x.Name == c.rec && len(parts) > 0 {
-				return strings.Join(parts, "."), true
-			}
-		}
-		return "", false
-	}
-}
-
-func j_isNil(e ast.Expr) bool {
-	id, ok := j_unparen(e).(*ast.Ident)
-	return ok && id.Name == "nil"
-}
-
-func (c *j_fexprCtx) cond(e ast.Expr) (string, error) {
-	switch x := j_unparen(e).(type) {
-	case *ast.BinaryExpr:
-		switch x.Op {
-		case token.LAND, token.LOR:
-			a, err := c.cond(x.X)
-			if err != nil {
-				return "", err
-			}
-			b, err := c.cond(x.Y)
-			if err != nil {
-				return "", err
-			}
-			op := ".and"
-			if x.Op == token.LOR {
-				op = ".or"
-			}
-			return fmt.Sprintf("(%s %s %s)", op, a, b), nil
-		case token.EQL, token.NEQ:
-			l, r := x.X, x.Y
-			if _, ok := c.path(r); ok {
-				l, r = r, l
-			}
-			p, ok := c.path(l)
-			if !ok {
-				return "", fmt.Errorf("comparison without a record field at %s", c.sc.fset.Position(x.Pos()))
-			}
-			var s string
-			if j_isNil(r) {
-				s = "(.nonNil " + j_lb(p) + ")"
-				if x.Op == token.EQL {
-					s = "(.not " + s + ")"
-				}
-				return s, nil
-			}
-			v, err := c.sc.str(r)
-			if err != nil {
-				return "", err
-			}
-			s = fmt.Sprintf("(.eq %s %s)", j_lb(p), j_lb(v))
-			if x.Op == token.NEQ {
-				s = "(.not " + s + ")"
-			}
-			return s, nil
-		}
-	case *ast.UnaryExpr:
-		if x.Op == token.NOT {
-			a, err := c.cond(x.X)
-			if err != nil {
-				return "", err
-			}
-			return "(.not " + a + ")", nil
-		}
-	case *ast.CallExpr:
-		// contains(slice, record.X.Y)
-		if id, ok := x.Fun.(*ast.Ident); ok && id.Name == "contains" && len(x.Args) == 2 {
-			p, ok := c.path(x.Args[1])
-			if !ok {
-				return "", fmt.Errorf("contains() without a record field")
-			}
-			vs, err := c.sc.strList(x.Args[0])
-			if err != nil {
-				return "", err
-			}
-			return fmt.Sprintf("(.mem %s %s)", j_lb(p), j_lbList(vs)), nil
-		}
-	case *ast.Ident:
-		if x.Name == "true" {
-			return ".tt", nil
-		}
-		if x.Name == "false" {
-			return ".ff", nil
-		}
-	}
-	return "", fmt.Errorf("unsupported condition at %s", c.sc.fset.Position(e.Pos()))
-}
-
-// j_retBool recognises `return true|false`.
-func j_retBool(s ast.Stmt) (bool, bool) {
-	rs, ok := s.(*ast.ReturnStmt)
-	if !ok || len(rs.Results) != 1 {
-		return false, false
-	}
-	id, ok := j_unparen(rs.Results[0]).(*ast.Ident)
-	if !ok {
-		return false, false
-	}
-	switch id.Name {
-	case "true":
-		return true, true
-	case "false":
-		return false, true
-	}
-	return false, false
-}
-
-// stmts translates a statement list that returns a bool on every path.
-func (c *j_fexprCtx) stmts(list []ast.Stmt) (string, error) {
-	if len(list) == 0 {
-		return "", fmt.Errorf("falls off the end of Filter")
-	}
-	switch s := list[0].(type) {
-	case *ast.ReturnStmt:
-		if len(s.Results) != 1 {
-			return "", fmt.Errorf("unexpected return arity")
-		}
-		return c.cond(s.Results[0])
-	case *ast.IfStmt:
-		if s.Init != nil || s.Else != nil || len(s.Body.List) != 1 {
-			return "", fmt.Errorf("unsupported if statement at %s", c.sc.fset.Position(s.Pos()))
-		}
-		v, ok := j_retBool(s.Body.List[0])
-		if !ok {
-			return "", fmt.Errorf("if body is not a constant return")
-		}
-		cnd, err := c.cond(s.Cond)
-		if err != nil {
-			return "", err
-		}
-		rest, err := c.stmts(list[1:])
-		if err != nil {
-			return "", err
-		}
-		if v {
-			return fmt.Sprintf("(.or %s %s)", cnd, rest), nil
-		}
-		return fmt.Sprintf("(.and (.not %s) %s)", cnd, rest), nil
-	case *ast.SwitchStmt:
-		if s.Init != nil || s.Tag != nil {
-			return "", fmt.Errorf("unsupported switch at %s", c.sc.fset.Position(s.Pos()))
-		}
-		// cases in order; default (or the statements after the switch) last
-		type arm struct {
-			cond string
-			val  bool
-		}
-		var arms []arm
-		def := ""
-		for _, cs := range s.Body.List {
-			cc := cs.(*ast.CaseClause)
-			if len(cc.Body) != 1 {
-				return "", fmt.Errorf("switch arm is not a single return")
-			}
-			v, ok := j_retBool(cc.Body[0])
-			if !ok {
-				return "", fmt.Errorf("switch arm is not a constant return")
-			}
-			if cc.List == nil {
-				if v {
-					def = ".tt"
-				} else {
-					def = ".ff"
-				}
-				continue
-			}
-			var cs []string
-			for _, e := range cc.List {
-				x, err := c.cond(e)
-				if err != nil {
-					return "", err
-				}
-				cs = append(cs, x)
-			}
-			cnd := cs[len(cs)-1]
-			for i := len(cs) - 2; i >= 0; i-- {
-				cnd = fmt.Sprintf("(.or %s %s)", cs[i], cnd)
-			}
-			arms = append(arms, arm{cnd, v})
-		}
-		if def == "" {
-			rest, err := c.stmts(list[1:])
-			if err != nil {
-				return "", err
-			}
-			def = rest
-		}
-		out := def
-		for i := len(arms) - 1; i >= 0; i-- {
-			if arms[i].val {
-				out = fmt.Sprintf("(.or %s %s)", arms[i].cond, out)
-			} else {
-				out = fmt.Sprintf("(.and (.not %s) %s)", arms[i].cond, out)
-			}
-		}
-		return out, nil
-	}
-	return "", fmt.Errorf("unsupported statement in Filter at %s", c.sc.fset.Position(list[0].Pos()))
-}
-
-func (sc *j_scope) filterExpr(fd *ast.FuncDecl) (string, error) {
-	if fd.Type.Params == nil || len(fd.Type.Params.List) != 1 || len(fd.Type.Params.List[0].Names) != 1 {
-		return "", fmt.Errorf("%s: Filter has an unexpected signature", sc.dir)
-	}
-	c := &j_fexprCtx{sc: sc, rec: fd.Type.Params.List[0].Names[0].Name}
-	s, err := c.stmts(fd.Body.List)
-	if err != nil {
-		return "", fmt.Errorf("%s Filter: %w", sc.dir, err)
-	}
-	return s, nil
 }
 
 // ---- regular expressions ----
@@ -811,17 +198,4 @@ func j_reToLean(re *syntax.Regexp) (string, error) {
 		return out, nil
 	}
 	return "", fmt.Errorf("unsupported regexp operator %v in %q", re.Op, re.String())
-}
-
-// mustCompileArg returns the pattern of a regexp.MustCompile(`…`) call.
-func (sc *j_scope) mustCompileArg(e ast.Expr) (string, error) {
-	ce, ok := j_unparen(e).(*ast.CallExpr)
-	if !ok || len(ce.Args) != 1 {
-		return "", fmt.Errorf("%s: not a regexp.MustCompile call", sc.dir)
-	}
-	sel, ok := ce.Fun.(*ast.SelectorExpr)
-	if !ok || sel.Sel.Name != "MustCompile" {
-		return "", fmt.Errorf("%s: not a regexp.MustCompile call", sc.dir)
-	}
-	return sc.str(ce.Args[0])
 }
